@@ -9,6 +9,7 @@
 Established for each generator and for _code_gen by vf/contracts/c_expansion.py; because every generator satisfies the SAME
 contract, _code_gen's dispatch loop can use it for the arbitrary element, and the generators can use it for the recursive call.
 """
+from a816.exceptions import SymbolNotDefined
 from a816.parse.nodes import NodeError
 from vf.contracts.rt import fresh_int, fresh_list, ghost, ghost_get, grow_list, require
 
@@ -23,8 +24,18 @@ def is_one_of(x, candidates):
 def _effects(resolver, file_info):
     grow_list(resolver.scopes, "scope_opened_by_the_callee")
     resolver.last_used_scope = len(resolver.scopes) - 1
-    if fresh_int("outcome") == 0:
-        raise NodeError("the callee fails", file_info)
+    outcome = fresh_int("outcome")
+    if outcome <= 0:
+        # the callee fails: with any of the exception classes an expansion can fail with (a caller that catches one of them around the
+        # expansion would swallow an error of the statements it expands -- checked by the harnesses through the ghost flag)
+        ghost("callee_raised", True)
+        if outcome == 0:
+            raise NodeError("the callee fails", file_info)
+        if outcome == -1:
+            raise KeyError("undefined macro inside the callee")
+        if outcome == -2:
+            raise SymbolNotDefined("undefined symbol inside the callee")
+        raise RuntimeError("the callee fails")
     return fresh_list("code", 0)
 
 
